@@ -113,7 +113,7 @@ def check(tr):
         nstarted = sum(1 for b in tr.backend if b["m"] == "start_trial" and b["exc"] is None and b["s1"] is not None)
         inflight = 0
         cr = tr.scen.get("callback_raise")
-        if tr.end.get("injected") and cr and cr["hook"] == "on_start_trial":
+        if cr and cr["hook"] == "on_start_trial" and any(e["k"] == "fault" and e.get("kind") == "inject_exc" for e in tr.events):
             inflight = 1  # the injected exception hit between start_trial and the status update of that trial
         if st["started"] not in (nstarted, nstarted - inflight):
             out.append(V("C12", "R4.counter_mismatch", tr, "num_trials_started=%d, %d trials were started" % (st["started"], nstarted), end_seq))
